@@ -552,6 +552,98 @@ func (r *splitMix) next() uint64 {
 	return z ^ (z >> 31)
 }
 
+// racedWalkCase: a multi-component walk is overtaken, between two of its
+// steps, by a rename that replaces the entry its last component names. The
+// fid the walk binds and a fid bound afterwards denote the same path; a
+// write-class call through one must still exclude a read-class call through
+// the other.
+type racedWalkCase struct {
+	Native bool   `json:"native_walkgetattr"`
+	HoldAt int    `json:"hold_at"` // which step of the walk is held while the rename queues up (0: "P", 1: "kdA")
+	Write  string `json:"write"`   // the held write-class call: setattr | unlinkat-entry
+	ViaNew bool   `json:"via_new"` // the write goes through the fid bound afterwards (else through the walk's fid)
+}
+
+func runRacedWalkCase(c racedWalkCase) *fail {
+	fs := memfs.New(memfs.Options{NativeWalkGetAttr: c.Native, Monitor: true})
+	populateCC(fs.Tree)
+	srv := p9.NewServer(fs)
+	s1, s2 := peers.Start(srv), peers.Start(srv)
+	defer func() {
+		fs.ClearGates()
+		s1.Close(5 * time.Second)
+		s2.Close(5 * time.Second)
+	}()
+	desc := fmt.Sprintf("%+v", c)
+	for _, s := range []*peers.Session{s1, s2} {
+		if _, err := s.Version(64<<10, "9P2000.L.Google.7"); err != nil {
+			return failf("harness-version", "HARNESS-ERROR %v", err)
+		}
+		for i, m := range []*refcodec.Msg{tAttach(0, nofid, ""), tWalk(0, 1, "P", "kdA")} {
+			if r, err := s.Call(withTag(m, uint16(1+i))); err != nil || r.Type == refcodec.Rlerror {
+				return failf("harness-setup", "HARNESS-ERROR %s: %v %v", m, r, err)
+			}
+		}
+	}
+	// the walk P / kdA / rA is held at one of its first two steps
+	stepName := []string{"P", "kdA"}[c.HoldAt%2]
+	g1 := memfs.NewGate(func(cl *memfs.Call) bool {
+		return (cl.Op == "Walk" || cl.Op == "WalkGetAttr") && len(cl.Names) == 1 && cl.Names[0] == stepName
+	})
+	fs.AddGate(g1)
+	s1.Send(refcodec.Encode(withTag(tWalk(0, 10, "P", "kdA", "rA"), 100)))
+	select {
+	case <-g1.Entered:
+	case <-time.After(20 * time.Second):
+		return failf("harness-gate", "HARNESS-ERROR the walk never reached step %q (%s)", stepName, desc)
+	}
+	// a rename onto rA queues up behind the walk's hold on the rename lock
+	s2.Send(refcodec.Encode(withTag(tRenameat(1, "rB", 1, "rA"), 101)))
+	time.Sleep(15 * time.Millisecond)
+	g1.Release()
+	if _, err := s1.Recv(20 * time.Second); err != nil {
+		return failf("no-reply:raced-walk", "the walk was not answered: %v (%s)", err, desc)
+	}
+	if _, err := s2.Recv(20 * time.Second); err != nil {
+		return failf("no-reply:raced-walk", "the rename was not answered: %v (%s)", err, desc)
+	}
+	// a fid bound afterwards to the same path
+	if r, err := s2.Call(withTag(tWalk(1, 11, "rA"), 102)); err != nil || r.Type == refcodec.Rlerror {
+		return failf("harness-setup", "HARNESS-ERROR second walk: %v %v", r, err)
+	}
+	// a write-class call through one fid is held; a read-class call through the other must wait
+	wS, wFid, rS, rFid := s1, uint64(10), s2, uint64(11)
+	if c.ViaNew {
+		wS, wFid, rS, rFid = s2, 11, s1, 10
+	}
+	var wm *refcodec.Msg
+	wop := "SetAttr"
+	if c.Write == "unlinkat-entry" {
+		// UnlinkAt on the directory also excludes calls on the entry being removed
+		wm, wop = tUnlinkat(1, "rA"), "UnlinkAt"
+		_ = wFid
+	} else {
+		wm = tSetattr(wFid, 1, 0o600, 0)
+	}
+	g2 := memfs.NewGate(func(cl *memfs.Call) bool { return cl.Op == wop })
+	fs.AddGate(g2)
+	wS.Send(refcodec.Encode(withTag(wm, 110)))
+	select {
+	case <-g2.Entered:
+	case <-time.After(20 * time.Second):
+		return failf("harness-gate", "HARNESS-ERROR %s never reached the backend (%s)", wm, desc)
+	}
+	rS.Send(refcodec.Encode(withTag(tGetattr(rFid), 111)))
+	rS.Recv(60 * time.Millisecond) // whether it is answered early shows in the overlap monitor
+	g2.Release()
+	for _, an := range fs.Anomalies() {
+		if an.Kind == "overlap" {
+			return failf(an.Sig+":after-raced-walk", "overlap: %s entered while %s was held inside the backend; the two fids were bound to one path by a walk that a rename-over overtook between two of its steps and by a walk made afterwards (%s)", an.B, an.A, desc)
+		}
+	}
+	return nil
+}
+
 // openOnceCase: Open is invoked at most once on a File, whichever fids lead to
 // it. Besides the fid a File was walked to, the fid created by Txattrwalk
 // shares its origin's File.
@@ -628,6 +720,7 @@ func init() {
 	replayRegistrars = append(replayRegistrars, func() {
 		registerReplay("C07/pairs", func(c pairCase) *fail { return runPairCase(c, nil) })
 		registerReplay("C07/open-once", runOpenOnceCase)
+		registerReplay("C07/raced-walk", runRacedWalkCase)
 		registerReplay("C07/workload", func(c workloadCase) *fail { f, _ := runWorkload(c, true); return f })
 	})
 }
@@ -682,6 +775,29 @@ func TestC07(t *testing.T) {
 	}
 	h.Exhaustive(fmt.Sprintf("every ordered pair of %d operations x %d relations (x 2 backends in the thorough tier)", len(ops), len(ccRelations)))
 
+	// a walk overtaken by a rename-over between two of its steps
+	if env.Shard == 1%env.NShards {
+		for _, native := range []bool{false, true} {
+			for hold := 0; hold < 2; hold++ {
+				for _, wr := range []string{"setattr", "unlinkat-entry"} {
+					for _, via := range []bool{false, true} {
+						for rep := 0; rep < env.Pick(2, 10); rep++ {
+							c := racedWalkCase{Native: native, HoldAt: hold, Write: wr, ViaNew: via}
+							f := runRacedWalkCase(c)
+							h.Case(evid.HashJSON(c)+uint64(rep), true, "raced-walk")
+							if f != nil && strings.HasPrefix(f.Sig, "harness-") {
+								t.Errorf("HARNESS-ERROR %s", f.Msg)
+								continue
+							}
+							if h.report("raced-walk", f, c) {
+								return
+							}
+						}
+					}
+				}
+			}
+		}
+	}
 	// Open at most once per File: every short sequence of opens through the fid
 	// and through attribute fids derived from it
 	if env.Shard == 0 {
